@@ -103,13 +103,16 @@ Section HashArrayProofs.
   Lemma find_matches_positions arr v :
     find (matches Z (ha_eq arr v) (-1)) (positions (length arr)) = find_index elem (fun x => equ x v) arr 0.
   Proof.
-    rewrite <- (find_positions v v arr []). simpl. unfold positions.
+    pose proof (find_positions v v arr []) as FP. cbn [app length Z.of_nat] in FP. rewrite <- FP. unfold positions.
     apply find_ext_in. intros x Hx. apply in_map_iff in Hx. destruct Hx as [k [<- _]].
     unfold matches, HashArrayModel.ha_eq. rewrite ha_get_cur. rewrite ha_get_pos by lia. reflexivity.
   Qed.
 
   Definition RA (a : harray) (arr : list elem) : Prop :=
-    ha_arr elem a = arr /\ forall cur, R Z (ha_hf arr cur) (ha_eq arr cur) (ha_h elem a) (positions (length arr)).
+    ha_arr elem a = arr /\
+    Permutation (elements Z (ha_h elem a)) (positions (length arr)) /\
+    hcount Z (ha_h elem a) = Z.of_nat (length arr) /\
+    forall cur, R Z (ha_hf arr cur) (ha_eq arr cur) (ha_h elem a) (positions (length arr)).
 
   Definition aout_equiv (x y : haout) : Prop :=
     match x, y with
@@ -121,13 +124,13 @@ Section HashArrayProofs.
     RA (fst (ha_insert elem hfu equ a v)) (fst (oset_step elem equ arr (AInsert elem v))) /\
     (let '(b, p) := snd (ha_insert elem hfu equ a v) in AIns b p) = snd (oset_step elem equ arr (AInsert elem v)).
   Proof.
-    intros [Ea HR]. subst arr. set (arr := ha_arr elem a) in *.
+    intros [Ea [HP [HC HR]]]. subst arr. set (arr := ha_arr elem a) in *.
     pose proof (HR v) as Hv. unfold ha_insert. fold arr.
     pose proof (insert_R Z (ha_hf arr v) (ha_eq arr v) (ha_eq_refl arr v) (ha_eq_sym arr v) (ha_eq_trans arr v)
                          (ha_eq_hf arr v) (ha_h elem a) (positions (length arr)) (-1) Hv) as HI.
     rewrite find_matches_positions in HI. cbn [oset_step].
     destruct (find_index elem (fun x => equ x v) arr 0) as [p|] eqn:F.
-    - rewrite HI. cbn [fst snd]. split; [|reflexivity]. split; auto.
+    - rewrite HI. cbn [fst snd]. split; [|reflexivity]. split; [reflexivity|]. split; [exact HP|]. split; [exact HC|exact HR].
     - destruct HI as [h1 [E1 R1]]. rewrite E1.
       set (pos := Z.of_nat (length arr)).
       assert (Hpos : ha_eq arr v pos (-1) = true).
@@ -140,8 +143,11 @@ Section HashArrayProofs.
       rewrite find_app, Fn in HA. cbn [find] in HA. unfold matches at 1 in HA. rewrite ha_eq_refl in HA.
       destruct HA as [h2 [E2 R2]]. rewrite E2. cbn [fst snd]. split; [|reflexivity].
       rewrite replace_first_snoc in R2; auto; [|unfold matches; apply ha_eq_refl].
-      split; [reflexivity|]. intros cur'. cbn [ha_h ha_arr].
+      split; [reflexivity|]. cbn [ha_h ha_arr].
       rewrite app_length. cbn [length]. rewrite Nat.add_1_r, positions_snoc. fold pos.
+      split; [apply (R_perm _ _ _ _ _ R2)|]. split.
+      { rewrite (R_cnt _ _ _ _ _ R2). rewrite app_length, positions_length. cbn [length]. lia. }
+      intros cur'.
       eapply R_ext; [| |exact R2].
       + intros x Hx. unfold HashArrayModel.ha_hf. f_equal. apply ha_get_snoc.
         apply in_app_or in Hx. destruct Hx as [Hx|[<-|[]]]; [apply positions_in in Hx|]; unfold pos; lia.
@@ -151,31 +157,105 @@ Section HashArrayProofs.
         rewrite !ha_get_snoc; auto.
   Qed.
 
+  Lemma truncate_elements (h : hash Z) : Permutation (elements Z h) [] \/ hcount Z h <> 0 ->
+    elements Z (truncate Z h) = [] /\ hcount Z (truncate Z h) = 0.
+  Proof.
+    intros H. unfold truncate. destruct (hcount Z h =? 0) eqn:E.
+    - apply Z.eqb_eq in E. destruct H as [H|H]; [|contradiction]. apply Permutation_sym, Permutation_nil in H. auto.
+    - destruct (howned Z h); unfold HashModel.elements; cbn [slots hcount]; rewrite concat_map_nil; auto.
+  Qed.
+
   Lemma step_RA a arr op : RA a arr ->
     RA (fst (ha_step elem hfu equ a op)) (fst (oset_step elem equ arr op)) /\
     aout_equiv (snd (ha_step elem hfu equ a op)) (snd (oset_step elem equ arr op)).
   Proof.
     intros HRA. destruct op as [v|v| | |].
     - destruct (insert_RA a arr v HRA) as [A B]. cbn [ha_step].
-      destruct (ha_insert elem hfu equ a v) as [a' [b p]]. cbn [fst snd] in *. split; auto. rewrite B. 
-      unfold aout_equiv. destruct (snd (oset_step elem equ arr (AInsert elem v))); auto. reflexivity.
-    - destruct HRA as [Ea HR]. cbn [ha_step oset_step fst snd]. split; [split; auto|].
+      destruct (ha_insert elem hfu equ a v) as [a' [b p]]. cbn [fst snd] in *. split; [exact A|]. rewrite B.
+      unfold aout_equiv. destruct (snd (oset_step elem equ arr (AInsert elem v))); try reflexivity.
+    - destruct HRA as [Ea [HP [HC HR]]]. cbn [ha_step oset_step fst snd]. split; [split; [exact Ea|]; split; [exact HP|]; split; [exact HC|exact HR]|].
       unfold ha_lookup. rewrite Ea.
       rewrite (lookup_ok Z (ha_hf arr v) (ha_eq arr v) (ha_eq_refl arr v) (ha_eq_sym arr v) (ha_eq_trans arr v)
                          (ha_eq_hf arr v) _ _ (-1) (HR v)).
       rewrite find_matches_positions. reflexivity.
-    - cbn [ha_step oset_step fst snd]. split; auto. destruct HRA as [Ea HR]. cbn [aout_equiv].
-      destruct arr as [|x t].
-      + (* no element to instantiate the current item with: the table is empty *)
-        unfold ha_positions. cbn [length positions seq map].
-        admit.
-      + apply (R_perm _ _ _ _ _ (HR x)).
-    - cbn [ha_step oset_step fst snd]. split; [|reflexivity]. destruct HRA as [Ea HR].
-      split; [reflexivity|]. intros cur. cbn [ha_h ha_arr length].
+    - cbn [ha_step oset_step fst snd]. split; auto. destruct HRA as [Ea [HP [HC HR]]]. cbn [aout_equiv]. exact HP.
+    - cbn [ha_step oset_step fst snd]. split; [|reflexivity]. destruct HRA as [Ea [HP [HC HR]]].
+      assert (HT : elements Z (truncate Z (ha_h elem a)) = [] /\ hcount Z (truncate Z (ha_h elem a)) = 0).
+      { apply truncate_elements. destruct (Z.eq_dec (hcount Z (ha_h elem a)) 0) as [E|E]; [left|right; auto].
+        rewrite HC in E. destruct arr; [exact HP|cbn [length] in E; lia]. }
+      destruct HT as [HT1 HT2].
+      unfold ha_truncate. split; [reflexivity|]. cbn [ha_h ha_arr length]. split; [rewrite HT1; constructor|]. split; [exact HT2|].
+      intros cur.
       pose proof (truncate_R Z (ha_hf arr cur) (ha_eq arr cur) (ha_eq_refl arr cur) (ha_eq_sym arr cur)
                              (ha_eq_trans arr cur) (ha_eq_hf arr cur) _ _ (HR cur)) as T.
-      eapply R_ext; [| |exact T]; intros x; intros [].
-    - cbn [ha_step oset_step fst snd]. split; auto. destruct HRA as [Ea HR]. rewrite Ea. cbn [aout_equiv].
-      admit.
-  Admitted.
+      eapply R_ext; [| |exact T]; [intros x []|intros x y []].
+    - cbn [ha_step oset_step fst snd]. split; auto. destruct HRA as [Ea [HP [HC HR]]]. rewrite Ea, HC. reflexivity.
+  Qed.
+
+  Lemma new_RA : RA (ha_new elem) [].
+  Proof.
+    split; [reflexivity|]. cbn [ha_new ha_h length]. split; [|split].
+    - unfold HashModel.elements, hash_new. cbn [slots]. rewrite concat_repeat_nil. constructor.
+    - reflexivity.
+    - intros cur. apply new_R.
+  Qed.
+
+  Lemma run_from_RA ops : forall a arr, RA a arr ->
+    RA (fst (ha_run_from elem hfu equ a ops)) (fst (oset_run_from elem equ arr ops)) /\
+    Forall2 aout_equiv (snd (ha_run_from elem hfu equ a ops)) (snd (oset_run_from elem equ arr ops)).
+  Proof.
+    induction ops as [|op r IH]; intros a arr HR; cbn [ha_run_from oset_run_from].
+    - split; [exact HR|constructor].
+    - destruct (step_RA a arr op HR) as [R1 O1].
+      destruct (ha_step elem hfu equ a op) as [a1 o]. destruct (oset_step elem equ arr op) as [s1 o'].
+      cbn [fst snd] in R1, O1. destruct (IH a1 s1 R1) as [R2 O2].
+      destruct (ha_run_from elem hfu equ a1 r) as [a2 os]. destruct (oset_run_from elem equ s1 r) as [s2 os'].
+      cbn [fst snd] in *. split; auto.
+  Qed.
+
+  Lemma positions_NoDup n : NoDup (positions n).
+  Proof.
+    unfold positions. apply FinFun.Injective_map_NoDup; [|apply seq_NoDup]. intros x y H. lia.
+  Qed.
+
+  (* the theorem of the property: for every user hash function and every history the hash array behaves as the
+     insertion-ordered set: same return values and positions, the array holds the elements in insertion order
+     (position = insertion rank), the table enumerates every position exactly once, both counts = cardinality,
+     no two stored elements are equal *)
+  Theorem hash_array_refines ops :
+    let '(a, outs) := ha_run_from elem hfu equ (ha_new elem) ops in
+    let '(s, souts) := oset_run_from elem equ [] ops in
+    ha_arr elem a = s /\ Forall2 aout_equiv outs souts /\
+    Permutation (ha_positions elem a) (positions (length s)) /\ NoDup (ha_positions elem a) /\
+    hcount Z (ha_h elem a) = Z.of_nat (length s) /\
+    (forall i j x y, nth_error s i = Some x -> nth_error s j = Some y -> equ x y = true -> i = j).
+  Proof.
+    destruct (run_from_RA ops _ _ new_RA) as [HR O].
+    destruct (ha_run_from elem hfu equ (ha_new elem) ops) as [a outs].
+    destruct (oset_run_from elem equ [] ops) as [s souts]. cbn [fst snd] in *.
+    destruct HR as [Ea [HP [HC HR]]].
+    split; [exact Ea|]. split; [exact O|]. split; [exact HP|]. split.
+    { eapply Permutation_NoDup; [apply Permutation_sym; exact HP|apply positions_NoDup]. }
+    split; [exact HC|].
+    intros i j x y Hi Hj E.
+    pose proof (R_nd _ _ _ _ _ (HR x)) as [_ U].
+    assert (Li : (i < length s)%nat) by (apply nth_error_Some; congruence).
+    assert (Lj : (j < length s)%nat) by (apply nth_error_Some; congruence).
+    assert (Z.of_nat i = Z.of_nat j); [|lia].
+    apply U; try (apply positions_in; lia).
+    unfold HashArrayModel.ha_eq. rewrite !ha_get_pos by lia. rewrite !Nat2Z.id.
+    rewrite (nth_error_nth _ _ _ Hi), (nth_error_nth _ _ _ Hj). exact E.
+  Qed.
+
+  (* positions are stable: every operation except truncate keeps the array as a prefix *)
+  Theorem hash_array_positions_stable a op : op <> ATruncate ->
+    exists t, ha_arr elem (fst (ha_step elem hfu equ a op)) = ha_arr elem a ++ t.
+  Proof.
+    intros H. destruct op as [v|v| | |]; cbn [ha_step]; try (exists []; rewrite app_nil_r; reflexivity); [|congruence].
+    unfold ha_insert.
+    destruct (insert_unique Z (ha_hf (ha_arr elem a) v) (ha_eq (ha_arr elem a) v) (ha_h elem a) (-1)) as [h1 [added found]].
+    destruct added.
+    - destruct (assign Z _ _ h1 (-1) _) as [h2 b]. exists [v]. reflexivity.
+    - exists []. rewrite app_nil_r. reflexivity.
+  Qed.
 End HashArrayProofs.
